@@ -163,12 +163,14 @@ def _flt(x):
     return float.fromhex(x)
 
 
-def vals_close(a, b, d, rtol, atol):
+def vals_close(a, b, d, rtol, atol, strict_zero=False):
     if a == b:
         return True
     if a is None or b is None:
         return False
     fa, fb = _flt(a), _flt(b)
+    if strict_zero and fa == 0.0 and fb == 0.0 and math.copysign(1.0, fa) != math.copysign(1.0, fb):
+        return False
     if math.isnan(fa) or math.isnan(fb):
         return math.isnan(fa) and math.isnan(fb)
     if math.isinf(fa) or math.isinf(fb):
@@ -184,13 +186,13 @@ def erase(e):
     return e
 
 
-def cmp_arrays(a: dict, b: dict, rtol=0.0, atol=0.0, check_dtype=True, erase_masked=True):
+def cmp_arrays(a: dict, b: dict, rtol=0.0, atol=0.0, check_dtype=True, erase_masked=True, strict_zero=False):
     """Return None if equal else a short reason ('dtype' | 'shape' | 'mask' | 'value')."""
     if "tuple" in a or "tuple" in b:
         if "tuple" not in a or "tuple" not in b or len(a["tuple"]) != len(b["tuple"]):
             return "arity"
         for x, y in zip(a["tuple"], b["tuple"]):
-            r = cmp_arrays(x, y, rtol, atol, check_dtype, erase_masked)
+            r = cmp_arrays(x, y, rtol, atol, check_dtype, erase_masked, strict_zero)
             if r:
                 return r
         return None
@@ -213,7 +215,7 @@ def cmp_arrays(a: dict, b: dict, rtol=0.0, atol=0.0, check_dtype=True, erase_mas
     if len(da) != len(db):
         return "shape"
     if is_float_d(a.get("dtype", "")) or is_float_d(b.get("dtype", "")):
-        if all(vals_close(x, y, a["dtype"], rtol, atol) for x, y in zip(da, db)):
+        if all(vals_close(x, y, a["dtype"], rtol, atol, strict_zero) for x, y in zip(da, db)):
             return None
         return "value"
     return "value"
